@@ -13,6 +13,9 @@
 int main(void) {
   IN(long, start); IN(long, end); IN(long, step);
   VASSUME(step != 0);                                                       /* documented precondition */
+#ifdef STEPSIGN
+  VASSUME(STEPSIGN > 0 ? step > 0 : step < 0);
+#endif
   VASSUME(start >= -R && start <= R && end >= -R && end <= R && step >= -R && step <= R);   /* 64-bit division by a symbolic step is SAT-hard: the range is the stated bound */
   long n = 0; long vals[U + 1];
   for (long i = start; step > 0 ? i < end : i > end; i += step) {
